@@ -276,6 +276,13 @@ impl Rasn {
         tld: ToplevelValueDefinition,
     ) -> Result<TokenStream, GeneratorError> {
         let ty = &tld.associated_type;
+        if let ASN1Type::ChoiceSelectionType(_) = ty {
+            return Err(GeneratorError {
+                kind: GeneratorErrorType::Asn1TypeMismatch,
+                details: "Choice selection type should have been resolved at this point!".into(),
+                top_level_declaration: Some(Box::new(ToplevelDefinition::Value(tld))),
+            });
+        }
         match &tld.value {
             ASN1Value::Null if ty.is_builtin_type() => {
                 call_template!(self, primitive_value_template, tld, quote!(()), quote!(()))
